@@ -45,6 +45,9 @@ def run_C01(tier, seed):
                            must_fn=lambda s: any(m["n"] == 64 for m in s["sc"]["members"]))
     big.name = "api:batch@256"
     res.append(big)
+    # honest batches in the middle of refused ones (structurally broken members at any position), one after the other on one thread:
+    # an honest triple stays accepted whatever was verified before it
+    res.append(stages.api_stage("C01", "batch", tier, seed, groups=("fm",)))
     return res
 
 
@@ -71,6 +74,17 @@ def reaches_msm(s):
             and all(m["mut"]["kind"] == "none" or (m["mut"]["kind"] == "scalar" and m["mut"]["how"] != "noncanon")
                     or (m["mut"]["kind"] == "point" and m["mut"]["how"] in ("rand", "other")) for m in ms)
             and len({m.get("bseed", 0) for m in ms if m.get("bseed", 0) != 0}) == 0)
+
+
+def c02_scaled(tier, seed):
+    def f():
+        # input sequences of different lengths beyond the chunk limit (the shortest ending exactly on a chunk boundary): nothing is
+        # accepted that was not examined
+        b = stages.api_stage("C02", "batch", tier, seed, groups=("rist",), scale="2:256", scale_min=0, limit=30 if Q(tier) else 400,
+                             filter_fn=lambda s: s["sc"]["skew"] != [0, 0, 0] or s["expect"]["verify"] == "ok")
+        b.name = "api:batch@256"
+        return b
+    return f
 
 
 def run_C02(tier, seed):
@@ -109,6 +123,7 @@ def run_C02(tier, seed):
         # pairwise distinct derivation (up to 1024 parties)
         lambda: stages.generators_stage("C02", tier, seed, threads=0),
         lambda: stages.api_stage("C02", "batch", tier, seed, groups=("fm",)),
+        c02_scaled(tier, seed),
         # statements edited after construction (public fields): no promise entry for some commitment, or surplus entries; the
         # independent prover builds the proof most favourable to a verifier that pairs commitments with promise entries
         lambda: stages.cases_stage("C02", "MC_Malformed", tier, seed, invariants="Sound", consts="PairAndStop = FALSE",
